@@ -7,6 +7,9 @@ def check(tier="quick", seed=0, workers=None, only=None):
 
 
 def replay_case(case):
-    """Case-based violations of C06 come from the peer-input corpus (mc.props.c15)."""
+    """Case-based violations of C06 come from the peer-input corpus (mc.props.c15) and from the API-use cases (mc.props.apiuse)."""
+    if "api" in case:
+        from . import apiuse
+        return apiuse.replay_case(case, ("C06",))
     from . import c15
     return [v for v in c15.replay_all(case) if v["oracle"].startswith("C06.")]
